@@ -15,7 +15,7 @@ from .eng_machine import kinds as mkinds
 
 from netqasm.lang.ir import BranchLabel, GenericInstr, ICmd, ProtoSubroutine
 from netqasm.lang.operand import Address, ArrayEntry, ArraySlice, Label
-from netqasm.lang.parsing.text import assemble_subroutine, parse_text_subroutine
+from netqasm.lang.parsing.text import assemble_subroutine, parse_text_protosubroutine, parse_text_subroutine
 
 ASSUME = [
     "source semantics: a label is the index of the next command; a literal in a register position is a register nobody can name (ghost registers in spec/AsmRefine.tla)",
@@ -190,11 +190,21 @@ def directed() -> List[Tuple[str, List[Dict[str, Any]]]]:
 def assemble_all(src, rng, mode) -> List[Tuple[str, Any, str]]:
     """Returns [(path, target instruction list or None, error)] for the IR path and the text paths."""
     out = []
+    proto = None
     try:
-        sub = assemble_subroutine(to_proto(src))
+        proto = to_proto(src)
+        sub = assemble_subroutine(proto)
         out.append(("ir", [dict(zip(("mn", "ops"), isa.flatten(i))) for i in sub.instructions], ""))
     except Exception as ex:
         out.append(("ir", None, f"{type(ex).__name__}: {ex}"[:160]))
+    if out[-1][1] is not None:
+        # the same IR object assembled a second time (once per flavour is the documented use): the second
+        # subroutine has to behave like the source just as the first
+        try:
+            sub = assemble_subroutine(proto)
+            out.append(("ir-again", [dict(zip(("mn", "ops"), isa.flatten(i))) for i in sub.instructions], ""))
+        except Exception as ex:
+            out.append(("ir-again", None, f"{type(ex).__name__}: {ex}"[:160]))
     toks = sorted({regname(o["v"]) for it in src if it["t"] == "cmd" for o in it["ops"] if o["k"] == "reg"})
     variants = [("text", {}, False)]
     if toks:
@@ -206,6 +216,11 @@ def assemble_all(src, rng, mode) -> List[Tuple[str, Any, str]]:
         try:
             sub = parse_text_subroutine(to_text(src, macros, br))
             out.append((path, [dict(zip(("mn", "ops"), isa.flatten(i))) for i in sub.instructions], ""))
+            if path == "text":
+                pp = parse_text_protosubroutine(to_text(src, macros, br))
+                assemble_subroutine(pp)
+                sub = assemble_subroutine(pp)
+                out.append(("text-again", [dict(zip(("mn", "ops"), isa.flatten(i))) for i in sub.instructions], ""))
         except Exception as ex:
             out.append((path, None, f"{type(ex).__name__}: {ex}"[:160]))
     return out
